@@ -1,6 +1,7 @@
 import Driver.Common
 import OidcModel.Spec.FlowObs
 import Driver.C07WireMon
+import Driver.C07FaultMon
 open Kv Drv
 
 namespace Drv.Flow
@@ -90,9 +91,10 @@ def monStep (ms : MonSt) (l : Line) : MonSt × Option String × Option String :=
       ((FlowObs.observeX 0 ms (.registered (parseClient l "cl.0."))).1, none, none)
     else if (op == "exchange" || op == "refresh") && has l "w.body" then
       -- deep3-C07: a token request described as it travelled (Spec/C07Wire.lean: judged under every reading)
-      let e := FlowObs.EventX.token (Wire.parseWire l) (Wire.parseAnswer l)
-      let (ms', a0, b0) := FlowObs.observeX (int l "now0") ms e
-      let (_, a1, b1) := FlowObs.observeX (int l "now1") ms e
+      -- deep4-C07: a refresh line that describes the literal HTTP answer is also judged by Spec/C07Fault.lean (`observeF`)
+      let e := Wire.refreshEvent l
+      let (ms', a0, b0) := FlowObs.observeF (int l "now0") ms e
+      let (_, a1, b1) := FlowObs.observeF (int l "now1") ms e
       let v04 := if a0.isSome && a1.isSome then a0 else none
       let v07 := if b0.isSome && b1.isSome then b0 else none
       let v04 := match v04 with
